@@ -17,7 +17,7 @@ CHECKS = {
              "ops-table and attribute callbacks by function-pointer propagation, OpenSSL/c-ares callbacks by a model table) no blocking "
              "primitive (poll/epoll_wait/select with a non-zero timeout, sleep family, synchronous resolver calls, ...) is reachable "
              "from any non-blocking API entry when every test of the socket's blocking flag is folded to false; and every descriptor "
-             "is created with its *_NONBLOCK flag and never switched back. All paths, all states, all transports - which no test run can enumerate. (R3) no attribute setter can answer a positive status: the attribute-map walk stops on any non-zero status but fails only on a negative one, so xcm.blocking=false from the map is applied or the call fails.",
+             "is created with its *_NONBLOCK flag and never switched back. All paths, all states, all transports - which no test run can enumerate. (R3) no attribute setter can answer a positive status: the attribute-map walk stops on any non-zero status but fails only on a negative one, so xcm.blocking=false from the map is applied or the call fails. (R4) xcm_set_blocking leaves the stored mode unchanged on every failing exit.",
         note=TRUSTED + " A libc/OpenSSL/c-ares function that is not in the blocking table is assumed not to wait for an external event.",
         technique="call-graph reachability with guard folding (static analysis over clang AST/CFG)",
         design="3/C05"),
@@ -31,7 +31,7 @@ CHECKS["C10"] = dict(
          "the attribute types and tests length, syntax, existence, node kind, writability and type, each with its documented errno, before the "
          "setter runs; (R4) fixed-size setters read at most sizeof(type); (R5) a setter that rejects has not modified the socket; (R6) every "
          "array access of the name parser is in bounds (record invariant num_comps <= 64 checked at every store). Not decided: attribute "
-         "values, behaviour of getters in every connection state (nullness of OpenSSL objects). (R1 also) internal buffers on the transports' getter paths are armed (defect F20 repaired); (R10) the log formatter that records a rejected attribute name is bounded for any name length, sizes computed as unsigned differences proved not to wrap. (R4) xcm_set_blocking leaves the stored mode unchanged on every failing exit. (R12) every write of the attribute setters into their own buffers is bounded.",
+         "values, behaviour of getters in every connection state (nullness of OpenSSL objects). (R1 also) internal buffers on the transports' getter paths are armed (defect F20 repaired); (R10) the log formatter that records a rejected attribute name is bounded for any name length, sizes computed as unsigned differences proved not to wrap. (R12) every write of the attribute setters into their own buffers is bounded.",
     note=TRUSTED + " Pointer parameters of different names are assumed not to alias; the sizes written by libc sinks are taken from their man pages.",
     technique="bounded-write dataflow (difference constraints) + guard-ordering/dominance checks + path exploration",
     design="3/C10")
